@@ -358,7 +358,7 @@ fn main() {
 
 fn run(args: &Args) -> i32 {
     let mut rng = Rng::new(args.seed);
-    let n_cases = args.get_u64("cases", if args.thorough() { 30000 } else { 1000 });
+    let n_cases = args.get_u64("cases", if args.thorough() { 20000 } else { 1000 });
     let max_roas = args.get_u64("maxroas", 40);
     let max_anns = args.get_u64("maxanns", 200);
     let per_shard = args.get_u64("shard", 64) as usize;
@@ -529,6 +529,14 @@ fn run(args: &Args) -> i32 {
                 format!("{} {}", state_name(e.state), subj) }).collect::<Vec<_>>()), Err(_) => json!("PANIC") },
             "suggestion": match &observed { Ok((_, sug)) => serde_json::to_value(sug).unwrap_or(json!(null)), Err(_) => json!("PANIC") },
             "features": feats.iter().collect::<Vec<_>>(),
+            // machine-readable classification for known_findings.json matchers
+            "class": {
+                "as0_announcement_valid": feats.iter().any(|f| f.starts_with("F17a")),
+                "twin_roas_both_redundant": feats.iter().any(|f| f.starts_with("F17b")),
+                "held_through_other_family": feats.iter().any(|f| f.starts_with("F17c")),
+                "overflow_panic": observed.is_err(),
+                "suggestion_drops_valid_announcement": feats.iter().any(|f| f.starts_with("F17e")),
+            },
         });
         writeln!(jsonl, "{}", rec).unwrap();
         if samples.len() < 5 && nontrivial && roas.len() <= 4 && anns.len() <= 6 { samples.push(rec); }
@@ -543,7 +551,7 @@ fn run(args: &Args) -> i32 {
         "evaluations": w.total, "distinct_nontrivial": distinct.len(), "report_entries": total_entries,
         "rule": "per case: a pool of nested IPv4/IPv6 prefixes (anchors incl. 0.0.0.0, 255.255.255.255, ::, ffff:..:ffff; lengths incl. /0 and the family maximum; siblings), ROAs on pool prefixes (AS0 15%, max length none/equal/longer/family max/invalid, duplicates, None-vs-Some twins, comments), announcements on pool prefixes or random more specifics (several origins, duplicates, AS0 2%, lines below MINIMUM_SEEN_BY and AS sets that must be ignored), held resources and optional scope = all / random subset / explicit ranges / empty / one family only; 12% lookup-only cases (no ROAs, every announcement in scope must come back NotFound: ties the prefix tree to the brute-force filter); analyse and suggest of the real code under catch_unwind; a case is non-trivial when the report has at least one announcement entry and (one ROA entry or lookup-only); distinct = distinct case terms",
         "state_distribution": state_hist, "resources_distribution": res_hist, "size_distribution": size_hist, "feature_distribution": feature_hist,
-        "lookup": "tested, not proved (every announcement entry of every report is compared with the brute-force filter of the loaded announcements)",
+        "lookup": "proved for the inductive tree model of builder and lookup (coq/bgp/TrieProofs.v: trie_lookup_exact, trie_agrees_with_spec); the index-linked Rust representation is tied by correspondence: every announcement entry of every report is compared with the brute-force filter of the loaded announcements",
         "candidate_findings": candidate_findings,
         "witness_replays": witness_replays,
         "samples": samples,
